@@ -1516,3 +1516,76 @@ theorem C04_code_fs_key_arity (k : String) (h : (pySplit2 k '-' '>').length ≠ 
   simp [h']
 
 end Atsim.C04
+
+namespace Atsim.C04
+open Atsim Atsim.Gen.Logic
+
+namespace FsKey
+
+theorem split_ne_nil (a b : Char) : ∀ l : List Char, splitChars2 a b l ≠ []
+  | [] => by simp [splitChars2]
+  | [_] => by simp [splitChars2]
+  | x :: y :: rest => by
+    rw [splitChars2]
+    split
+    · simp
+    · split <;> simp
+
+theorem split_length_pos (a b : Char) (l : List Char) : 1 ≤ (splitChars2 a b l).length :=
+  List.length_pos_iff.mpr (split_ne_nil a b l)
+
+theorem split_length_skip (a b x y : Char) (rest : List Char) (h : ¬ ((x == a && y == b) = true)) :
+    (splitChars2 a b (x :: y :: rest)).length = (splitChars2 a b (y :: rest)).length := by
+  rw [splitChars2, if_neg h]
+  cases hs : splitChars2 a b (y :: rest) with
+  | nil => exact absurd hs (split_ne_nil a b _)
+  | cons p ps => simp
+
+theorem contains_iff : ∀ l : List Char,
+    charsContain ['-', '>'] l = true ↔ 2 ≤ (splitChars2 '-' '>' l).length
+  | [] => by simp [charsContain, splitChars2]
+  | [x] => by simp [charsContain, splitChars2, List.isPrefixOf]
+  | x :: y :: rest => by
+    by_cases hm : (x == '-' && y == '>') = true
+    · have hp := split_length_pos '-' '>' rest
+      have hl : charsContain ['-', '>'] (x :: y :: rest) = true := by
+        rw [charsContain]
+        simp only [Bool.and_eq_true, beq_iff_eq] at hm
+        simp [List.isPrefixOf, hm.1, hm.2]
+      have hr : (splitChars2 '-' '>' (x :: y :: rest)).length = (splitChars2 '-' '>' rest).length + 1 := by
+        rw [splitChars2, if_pos hm]; simp
+      rw [hr]
+      constructor
+      · intro _; omega
+      · intro _; exact hl
+    · rw [split_length_skip _ _ _ _ _ hm, ← contains_iff (y :: rest)]
+      have hpre : List.isPrefixOf ['-', '>'] (x :: y :: rest) = false := by
+        simp only [Bool.and_eq_true, beq_iff_eq, not_and] at hm
+        simp only [List.isPrefixOf, Bool.and_true]
+        by_cases hx : x = '-'
+        · have := hm hx
+          simp [hx, Ne.symm this]
+        · simp [Ne.symm hx]
+      conv_lhs => rw [charsContain, hpre, Bool.false_or]
+
+end FsKey
+
+/-- **code tie (the two arrow tests agree)**: `parsed_sections` chooses the Finnis-Sinclair flavour of `[EAM-Density]` by `"->" in key`, the line parser splits the key at `"->"`:
+the key holds the arrow exactly when the split gives at least two pieces -/
+theorem C04_code_fs_key_has_arrow (k : String) :
+    strContains k "->" = true ↔ 2 ≤ (pySplit2 k '-' '>').length := by
+  have h2 : ("->" : String).toList = ['-', '>'] := by decide
+  unfold strContains pySplit2
+  rw [h2, List.length_map]
+  exact FsKey.contains_iff k.toList
+
+/-- a key without the arrow (a plain EAM density key) is never read as a Finnis-Sinclair key -/
+theorem C04_code_fs_key_no_arrow (k : String) (h : strContains k "->" = false) :
+    fs_species_func Atsim.strip k = .error CfgErr.notTwoParts := by
+  apply C04_code_fs_key_arity
+  intro e
+  have := (C04_code_fs_key_has_arrow k).mpr (by omega)
+  rw [h] at this
+  exact Bool.noConfusion this
+
+end Atsim.C04
